@@ -158,14 +158,14 @@ package headers
 
 //@ func (*Repository).ProcessHeader
 //@   requires repoInv(repo) && header != nil
-//@   requires repo.disableDifficulty ==> validBits(header.Bits)
 //@   let hash = hashOf(header)
 //@   let bits = header.Bits
 //@   ensures [C01.inv-basic] repoBasic(repo)
 //@   ensures [C01.inv-tips] repoTips(repo)
 //@   ensures [C01.tip-maximal] repoMax(repo)
 //@   ensures [C01.inv-sep] repoSep(repo)
-//@   ensures [C02.work,C08.not-enough-work] !old(repo.disableDifficulty) && !workValid(hash, bits) ==> result == ErrNotEnoughWork
+//@   ensures [C02.bits-decodable,C08.bad-bits,C15.bits-decodable] !validBits(bits) ==> result == ErrInvalidTarget
+//@   ensures [C02.work,C08.not-enough-work] validBits(bits) && !old(repo.disableDifficulty) && !workValid(hash, bits) ==> result == ErrNotEnoughWork
 //@   modifies all
 //@   loop 1
 //@     invariant (-1 <= rangeindex && rangeindex < len(repo.splits)) || (len(repo.splits) == 0 && rangeindex == -1)
